@@ -4,6 +4,8 @@ package main
 // schema facts.
 
 import (
+	"go/types"
+	"regexp"
 	_ "embed"
 	"fmt"
 	"go/token"
@@ -548,17 +550,24 @@ func (c *Ctx) compareToSpec(key string, r *resolvedExec, spec *specEntry) {
 		return
 	}
 	full := func(o *Obl) {
-		if o.Verdict != Discharged {
+		if o != nil && o.Verdict != Discharged {
 			o.Expected, o.Found = s.String(), f.String()
 		}
 	}
+	// facet filter (properties that rely on one aspect of a statement only)
+	check := func(ok bool, k string, p token.Pos, okText, badText string) *Obl {
+		if c.sqlFacets != nil && !c.sqlFacets[k[strings.LastIndex(k, "/")+1:]] {
+			return nil
+		}
+		return c.check(ok, k, p, okText, badText)
+	}
 	// guard
-	full(c.check(eqSet(f.Where, s.Where), key+"/guard", pos,
+	full(check(eqSet(f.Where, s.Where), key+"/guard", pos,
 		"guard = "+strings.Join(f.Where, " AND "),
 		where+": guard differs: found ["+strings.Join(f.Where, " AND ")+"], spec ["+strings.Join(s.Where, " AND ")+"]"))
 	switch f.Kind {
 	case "update":
-		full(c.check(eqMap(f.Sets, s.Sets), key+"/sets", pos, "SET "+mapString(f.Sets),
+		full(check(eqMap(f.Sets, s.Sets), key+"/sets", pos, "SET "+mapString(f.Sets),
 			where+": SET list differs: found ["+mapString(f.Sets)+"], spec ["+mapString(s.Sets)+"]"))
 	case "insert":
 		okCols := true
@@ -580,12 +589,12 @@ func (c *Ctx) compareToSpec(key string, r *resolvedExec, spec *specEntry) {
 			}
 		}
 		sort.Strings(diffs)
-		full(c.check(okCols, key+"/columns", pos, "columns "+mapString(f.Ins), where+": written columns differ: "+strings.Join(diffs, "; ")))
-		full(c.check(f.SrcTable == s.SrcTable && eqSet(f.SrcWhere, s.SrcWhere), key+"/source", pos,
+		full(check(okCols, key+"/columns", pos, "columns "+mapString(f.Ins), where+": written columns differ: "+strings.Join(diffs, "; ")))
+		full(check(f.SrcTable == s.SrcTable && eqSet(f.SrcWhere, s.SrcWhere), key+"/source", pos,
 			"source "+f.SrcTable+" WHERE "+strings.Join(f.SrcWhere, " AND "),
 			where+": row source differs: found ["+f.SrcTable+" WHERE "+strings.Join(f.SrcWhere, " AND ")+"], spec ["+s.SrcTable+" WHERE "+strings.Join(s.SrcWhere, " AND ")+"]"))
 		okC := f.HasConfl == s.HasConfl && eqSet(f.ConflTgt, s.ConflTgt) && f.ConflNop == s.ConflNop && eqMap(f.ConflSet, s.ConflSet) && eqSet(f.ConflWh, s.ConflWh)
-		full(c.check(okC, key+"/conflict", pos, "conflict clause as specified", where+": ON CONFLICT clause differs"))
+		full(check(okC, key+"/conflict", pos, "conflict clause as specified", where+": ON CONFLICT clause differs"))
 	case "select":
 		have := map[string]bool{}
 		for _, col := range f.SelCols {
@@ -597,7 +606,7 @@ func (c *Ctx) compareToSpec(key string, r *resolvedExec, spec *specEntry) {
 				missing = append(missing, col)
 			}
 		}
-		full(c.check(len(missing) == 0, key+"/select-list", pos, fmt.Sprintf("%d columns selected", len(f.SelCols)),
+		full(check(len(missing) == 0, key+"/select-list", pos, fmt.Sprintf("%d columns selected", len(f.SelCols)),
 			where+": columns not selected: "+strings.Join(missing, ", ")))
 		// scan alignment: column i -> record field of the same name
 		okScan := len(r.E.Scan) == len(f.SelCols)
@@ -616,13 +625,13 @@ func (c *Ctx) compareToSpec(key string, r *resolvedExec, spec *specEntry) {
 		if !sp.IsValid() {
 			sp = pos
 		}
-		c.check(okScan, key+"/scan", sp, "each selected column is scanned into the record field of the same name",
+		check(okScan, key+"/scan", sp, "each selected column is scanned into the record field of the same name",
 			where+": scan misaligned: "+strings.Join(sd, "; "))
-		full(c.check(eqSet(f.OnePer, s.OnePer), key+"/one-per", pos, "one-per "+strings.Join(f.OnePer, ","), where+": GROUP BY / DISTINCT ON differs"))
+		full(check(eqSet(f.OnePer, s.OnePer), key+"/one-per", pos, "one-per "+strings.Join(f.OnePer, ","), where+": GROUP BY / DISTINCT ON differs"))
 		if s.Order != "" {
-			full(c.check(f.Order == s.Order, key+"/order", pos, "ORDER BY "+f.Order, where+": ORDER BY differs: found ["+f.Order+"], spec ["+s.Order+"]"))
+			full(check(f.Order == s.Order, key+"/order", pos, "ORDER BY "+f.Order, where+": ORDER BY differs: found ["+f.Order+"], spec ["+s.Order+"]"))
 		}
-		full(c.check(f.Limit == s.Limit, key+"/limit", pos, "LIMIT "+f.Limit, where+": LIMIT differs: found ["+f.Limit+"], spec ["+s.Limit+"]"))
+		full(check(f.Limit == s.Limit, key+"/limit", pos, "LIMIT "+f.Limit, where+": LIMIT differs: found ["+f.Limit+"], spec ["+s.Limit+"]"))
 	}
 }
 
@@ -771,4 +780,54 @@ func ddlFacts(b *backend) map[string]string {
 		out[s.Table] = x
 	}
 	return out
+}
+
+// ruleSQLRowCounts (C13): the coroutines assert relations over the row counts the store reports
+// ("0 or 1 rows", "created task rows == deleted callback rows", "promise rows == task rows"). An
+// assertion that fails panics on the kernel goroutine, so each asserted count must be backed by the
+// statement that produces it: its guard (by key ⇒ at most one row), its row source, its conflict
+// clause and its LIMIT are compared with spec/sql.spec for every kind whose result is asserted.
+func ruleSQLRowCounts(c *Ctx) {
+	m := c.coroModel()
+	if m.Err != nil {
+		c.und("model", 0, m.Err.Error())
+		return
+	}
+	info := m.Pk.TypesInfo
+	re := regexp.MustCompile(`Results\[[^\]]*\]\.(\w+)\.(?:Promise|Task)?Rows(?:Affected|Returned)`)
+	kinds := map[string]bool{}
+	nAsserts := 0
+	for _, name := range m.Order {
+		cf := m.Funcs[name]
+		for _, call := range callsInDeep(cf.Decl.Body) {
+			fn, ok := calleeOf(info, call).(*types.Func)
+			if !ok || fn.Pkg() == nil || fn.Pkg().Path() != pkgUtil || fn.Name() != "Assert" || len(call.Args) == 0 {
+				continue
+			}
+			pv := cf.Env.prov(call.Args[0])
+			ms := re.FindAllStringSubmatch(pv, -1)
+			if len(ms) > 0 {
+				nAsserts++
+			}
+			for _, mm := range ms {
+				k := mm[1]
+				if k == "ReadEnquableTasks" {
+					k = "ReadEnqueueableTasks"
+				}
+				kinds[k] = true
+			}
+		}
+	}
+	var ks []string
+	for k := range kinds {
+		ks = append(ks, k)
+	}
+	sort.Strings(ks)
+	c.count("row_count_assertions", nAsserts)
+	c.count("asserted_result_kinds", len(ks))
+	c.floor("row-count assertions related to a statement", nAsserts, 20)
+	c.floor("result kinds with asserted row counts", len(ks), 10)
+	c.sqlFacets = map[string]bool{"guard": true, "source": true, "conflict": true, "limit": true, "effect": true, "one-per": true, "dispatch": true, "statement": true, "binding": true}
+	defer func() { c.sqlFacets = nil }()
+	ruleSQLSpec(func(*sqlModel) []string { return ks })(c)
 }
